@@ -125,9 +125,12 @@ def run_choice(
         try:
             y = coros[wid].send(None)
             while isinstance(y, Suspend) and y.kind == "status-wait":
-                # the bounded wait for a late result is not a scheduling point (the node stays occupied)
+                # the bounded wait for a late result is by default not a scheduling point (the node stays occupied);
+                # with SHIM.atomic_status_wait off the other workers may move while the runner polls
                 if STATUS_WAIT_HOOK is not None:
                     STATUS_WAIT_HOOK(wid)
+                if not SHIM.atomic_status_wait:
+                    break
                 y = coros[wid].send(None)
         except StopIteration:
             live.remove(wid)
